@@ -25,7 +25,7 @@ ASSUMPTIONS = ["B=1024 (quick) / 4096 (thorough) nested paths, 6-7 dyadic step s
                "margin 0.25 (quick) / 0.2 (thorough) below the advertised order",
                "closed forms are cross-checked against fine-grid solves by two different solvers (vt/closed_forms.py)",
                "non-commutative general noise: reference = same solver at dt_min/16 on the same Brownian object"]
-REQUIRED_COUNTERS = ["fixed_cases", "adaptive_cases", "adaptive_binding_pairs", "fine_reference_cases", "levels_measured", "ito_corr_crosscheck"]
+REQUIRED_COUNTERS = ["fixed_cases", "adaptive_cases", "adaptive_binding_pairs", "adaptive_monotone_pairs", "fine_reference_cases", "levels_measured", "ito_corr_crosscheck"]
 THRESHOLDS = {"margin_quick": 0.25, "margin_thorough": 0.2}
 
 
@@ -180,7 +180,13 @@ def run_adaptive(case):
         mx["adaptive_err_ratio_tight_over_loose"] = errs[j] / max(errs[i], 1e-300)
         if not errs[j] <= 0.6 * errs[i]:
             viol.append({"mechanism": f"tightening_tolerance_does_not_reduce_error:{zoo.cell_name(cell)}", "detail": ctx})
-    for a, b in zip(errs[:-1], errs[1:]):
+    # monotonicity is demanded only where the tighter tolerance materially refined the schedule (>= 1.5x the trials):
+    # two schedules of 3 and 4 steps are both "as coarse as it gets" and their errors differ by sampling noise only
+    # (false alarm found by the thorough tier: 5.0e-2 -> 6.4e-2 with 3 -> 4 trials, then 1.3e-2, 2.1e-3, 5.9e-4)
+    for k, (a, b) in enumerate(zip(errs[:-1], errs[1:])):
+        if trials[k + 1] < 1.5 * trials[k]:
+            continue
+        cnt["adaptive_monotone_pairs"] = cnt.get("adaptive_monotone_pairs", 0) + 1
         if not b <= 1.25 * a + 1e-12:
             viol.append({"mechanism": f"error_not_monotone_in_tolerance:{zoo.cell_name(cell)}", "detail": ctx})
             break
